@@ -173,6 +173,31 @@ def _validate_conc(trace, tag):
     raise c.Infra("trace validation TLC failure:\n" + res.out[-2500:])
 
 
+def peer_churn(tier, seed):
+    """The real P2P server built with -race: peer connect / deliver / disconnect churn against API readers."""
+    import re
+    from checks_misc import build_rig
+    rig = build_rig(race=True)
+    d = c.sub("churn")
+    rounds = 30 if tier == "quick" else 400
+    p = c.run_harness(rig, {"VERIF_OP": "churn", "VERIF_OUT": os.path.join(d, "o.json"), "VERIF_DB": os.path.join(d, "c.db"), "VERIF_ROUNDS": rounds,
+                            "VERIF_SEED": seed, "GORACE": "halt_on_error=0", "TMPDIR": d}, cwd=d, timeout=3000)
+    if not os.path.exists(os.path.join(d, "o.json")):
+        raise c.Infra("churn run failed: %s" % p.stderr[-2000:])
+    sites = [x for f in c.findings_for("C15") for x in f.get("sites", [])]
+    explained, unexplained = 0, []
+    for b in p.stderr.split("WARNING: DATA RACE")[1:]:
+        b = b.split("==================")[0]
+        if any(sx in b for sx in sites):
+            explained += 1
+            continue
+        fr = [f for f in re.findall(r"\n  (\S+)\(\)\n", b) if "block-headers-service" in f and "verifh" not in f]
+        unexplained.append({"pair": " / ".join(fr[:1] + fr[-1:]), "text": b})
+    res = json.load(open(os.path.join(d, "o.json")))
+    res.update({"race_reports": explained + len(unexplained), "explained": explained, "unexplained": unexplained})
+    return res
+
+
 def c15(tier, seed, replay_path=None):
     binary = fc.build()
     if replay_path and json.load(open(replay_path))["case"].get("family") == "longreorg":
@@ -264,14 +289,24 @@ def c15(tier, seed, replay_path=None):
            "rule": "2-3 submitter goroutines (competing children of the tip, forks, children of headers another goroutine is adding) and 1-2 reader goroutines over the real SQL "
                    "stack; repository calls are granted one at a time in a seeded random order by the harness scheduler; every snapshot after a write and at every read, and the "
                    "final store, are validated by TLC against Trace_Conc.tla (StructValid snapshots, reader tip = top, final = Chain.AddRow folded in SOME order)"}
+    # peers connecting, delivering headers and disconnecting while API readers ask /network/peer, /network/peer/count and
+    # the tip: the real P2P server under the race detector
+    known = []
+    churn = peer_churn(tier, seed)
+    cov["peer_churn"] = {k: x for k, x in churn.items() if k not in ("unexplained", "explained")}
+    for f in c.findings_for("C15"):
+        if f.get("sites") and churn["explained"]:
+            known.append("%s [%d race-detector reports with NetworkService.GetPeers / GetPeersCount on one side]" % (f["what"], churn["explained"]))
+    for r in churn["unexplained"][:5]:
+        viol.append(("the race detector reports a data race while peers connect and disconnect: %s" % r["pair"], {"family": "churn-race", "report": r["text"][:6000]}))
     # a reader can only come between two ROWS of one repository write if that write is not atomic; the scheduler works at
     # repository-call granularity, so atomicity of a write relabelling > 500 rows is checked with row-level failures
     lr, lviol = long_reorg(binary, tier, seed, "C15")
     cov["long_reorg"] = {k: x for k, x in lr.items() if k != "mismatch"}
     viol += lviol
-    return {"violations": viol, "known": [], "notes": notes, "level": "model_checking", "coverage": cov,
+    return {"violations": viol, "known": known, "notes": notes, "level": "model_checking", "coverage": cov,
             "assumptions": ASSUME + ["schedules explored on the real code are seeded random ones at repository-call granularity; the exhaustive enumeration is on ChainSteps.tla",
-                                     "peer connect/disconnect traffic and the shared peers map are exercised by the P2P rig (C06), not here"]}
+                                     "peer churn runs free (no scheduler): three scripted nodes connect, send headers and inv, and disconnect in a loop while three goroutines call the API; the race detector is the monitor"]}
 
 
 CHECKS["C15"] = c15
